@@ -64,9 +64,11 @@ type lexer struct {
 	r     io.RuneScanner
 	n     int
 	token chan interface{}
+	done  chan struct{}
 
 	mu     sync.Mutex
-	err    error
+	err    error // error of the parser or the evaluator
+	lerr   error // error of the lexer
 	cancel chan struct{}
 
 	b strings.Builder
@@ -77,6 +79,7 @@ func newLexer(env *ExecEnv, r io.RuneScanner) *lexer {
 		env:    env,
 		r:      r,
 		token:  make(chan interface{}),
+		done:   make(chan struct{}),
 		cancel: make(chan struct{}),
 	}
 	verifHook(l, hkSpawn)
@@ -104,6 +107,7 @@ func (l *lexer) run() {
 	defer func() {
 		verifHook(l, hkRunExitBegin)
 		close(l.token)
+		close(l.done)
 		verifHook(l, hkRunExitEnd)
 
 		if e := recover(); e != nil && e != bailout {
@@ -338,7 +342,7 @@ func (l *lexer) lexOp() action {
 			}
 		}
 	default:
-		l.Error(fmt.Sprintf("unexpected %q", r))
+		l.error(fmt.Sprintf("unexpected %q", r))
 		return nil
 	}
 	l.emit(op)
@@ -377,6 +381,8 @@ func (l *lexer) unread() {
 	l.r.UnreadRune()
 }
 
+// Error reports a syntax error found by yyParse or a fault raised by an
+// action. It is only called by the goroutine that runs yyParse.
 func (l *lexer) Error(s string) {
 	verifHook(l, hkError)
 	l.mu.Lock()
@@ -385,20 +391,50 @@ func (l *lexer) Error(s string) {
 	switch {
 	case strings.HasPrefix(s, "syntax error: "):
 		s = s[14:]
-		if l.err != nil && s == "unexpected EOF" {
+		if (l.err != nil || l.lerr != nil) && s == "unexpected EOF" {
 			return // lexing was interrupted
 		}
+		// the parser does not ask for further tokens
+		l.stop()
 	case strings.HasPrefix(s, "runtime error: "):
 		s = s[15:]
 	}
 	l.err = ArithExprError{Msg: s}
+}
 
+// error reports a character that does not begin a token. It is only called
+// by the lexer goroutine, which ends thereafter.
+func (l *lexer) error(s string) {
+	verifHook(l, hkError)
+	l.mu.Lock()
+	l.lerr = ArithExprError{Msg: s}
+	l.mu.Unlock()
+}
+
+// stop cancels the lexer goroutine. It is only called by the goroutine that
+// runs yyParse.
+func (l *lexer) stop() {
 	select {
 	case <-l.cancel:
 	default:
 		close(l.cancel)
 	}
 	verifHook(l, hkCancelClosed)
+}
+
+// wait stops the lexer goroutine, waits until it has ended and returns the
+// error of the evaluation: an error of the parser or the evaluator concerns
+// input in front of the character the lexer may have stumbled over.
+func (l *lexer) wait() error {
+	l.stop()
+	<-l.done
+
+	l.mu.Lock()
+	defer l.mu.Unlock()
+	if l.err != nil {
+		return l.err
+	}
+	return l.lerr
 }
 
 // bailout is the panic value used to terminate the lexer goroutine.
